@@ -182,7 +182,7 @@ Fixpoint mk_pts {A} (ps : list (A * A * A)) (ws : list A) : option (list (@pt A)
   end.
 
 Definition bz (z : Z) : bigZ := BigZ.of_Z z.
-Definition bpow2 (n : Z) : bigZ := BigZ.pow 2%bigZ (BigZ.of_Z n).
+Definition bpow2 (n : Z) : bigZ := BigZ.pow (bz 2) (bz n).
 
 (* | X^2+Y^2+Z^2 - 4^s | * 10^13 <= 4^s *)
 Definition on_sphere_ok (s : Z) (p : @pt bigZ) : bool :=
@@ -194,11 +194,10 @@ Definition wsum_ok (mode : norm_mode) (sw : Z) (Sw : bigZ) : bool :=
   let one := bpow2 sw in
   match mode with
   | Times4Pi =>   (* 4 pi |Sw/2^sw - 1| <= 1e-9   <=   4 pi_hi |Sw - 2^sw| 1e9 <= 2^sw *)
-      BigZ.leb (4 * bz pi_hi_num * BigZ.abs (Sw - one) * bz tol_int_inv)%bigZ (one * bz pi_den)%bigZ
+      BigZ.leb (bz 4 * bz pi_hi_num * BigZ.abs (Sw - one) * bz tol_int_inv)%bigZ (one * bz pi_den)%bigZ
   | AsStored =>   (* Sw/2^sw - 1e-9 <= 4 pi_lo  and  4 pi_hi <= Sw/2^sw + 1e-9 *)
-      let t := (bz tol_int_inv * bz pi_den)%bigZ in
-      BigZ.leb ((Sw * bz tol_int_inv - one) * bz pi_den)%bigZ (4 * bz pi_lo_num * one * bz tol_int_inv)%bigZ
-      && BigZ.leb (4 * bz pi_hi_num * one * bz tol_int_inv)%bigZ ((Sw * bz tol_int_inv + one) * bz pi_den)%bigZ
+      BigZ.leb ((Sw * bz tol_int_inv - one) * bz pi_den)%bigZ (bz 4 * bz pi_lo_num * one * bz tol_int_inv)%bigZ
+      && BigZ.leb (bz 4 * bz pi_hi_num * one * bz tol_int_inv)%bigZ ((Sw * bz tol_int_inv + one) * bz pi_den)%bigZ
   end.
 
 (* kappa(l,m) * S^2 (* 16 pi^2 *) <= pi * 1e-18, with S = St / 2^(s l + sw) *)
@@ -207,7 +206,7 @@ Definition lm_ok (mode : norm_mode) (s sw : Z) (l m : nat) (St : bigZ) : bool :=
   let lhs := (bz (kappa_num l m) * (St * St) * bz tol_int_inv * bz tol_int_inv)%bigZ in
   let rhs := (bz (kappa_den l m) * sc)%bigZ in
   match mode with
-  | Times4Pi => BigZ.leb (16 * lhs * bz pi_hi_num)%bigZ (rhs * bz pi_den)%bigZ
+  | Times4Pi => BigZ.leb (bz 16 * lhs * bz pi_hi_num)%bigZ (rhs * bz pi_den)%bigZ
   | AsStored => BigZ.leb (lhs * bz pi_den)%bigZ (rhs * bz pi_lo_num)%bigZ
   end.
 
@@ -254,7 +253,7 @@ Definition lm_bad (mode : norm_mode) (s sw : Z) (l m : nat) (St : bigZ) : bool :
   let lhs := (bz (kappa_num l m) * (St * St) * bz tol_int_inv * bz tol_int_inv)%bigZ in
   let rhs := (bz (kappa_den l m) * sc)%bigZ in
   match mode with
-  | Times4Pi => BigZ.ltb (rhs * bz pi_den)%bigZ (16 * lhs * bz pi_lo_num)%bigZ
+  | Times4Pi => BigZ.ltb (rhs * bz pi_den)%bigZ (bz 16 * lhs * bz pi_lo_num)%bigZ
   | AsStored => BigZ.ltb (rhs * bz pi_hi_num)%bigZ (lhs * bz pi_den)%bigZ
   end.
 
@@ -262,10 +261,10 @@ Definition lm_bad (mode : norm_mode) (s sw : Z) (l m : nat) (St : bigZ) : bool :
 Definition wsum_bad (mode : norm_mode) (sw : Z) (Sw : bigZ) : bool :=
   let one := bpow2 sw in
   match mode with
-  | Times4Pi => BigZ.ltb (one * bz pi_den)%bigZ (4 * bz pi_lo_num * BigZ.abs (Sw - one) * bz tol_int_inv)%bigZ
+  | Times4Pi => BigZ.ltb (one * bz pi_den)%bigZ (bz 4 * bz pi_lo_num * BigZ.abs (Sw - one) * bz tol_int_inv)%bigZ
   | AsStored =>
-      BigZ.ltb (4 * bz pi_hi_num * one * bz tol_int_inv)%bigZ ((Sw * bz tol_int_inv - one) * bz pi_den)%bigZ
-      || BigZ.ltb ((Sw * bz tol_int_inv + one) * bz pi_den)%bigZ (4 * bz pi_lo_num * one * bz tol_int_inv)%bigZ
+      BigZ.ltb (bz 4 * bz pi_hi_num * one * bz tol_int_inv)%bigZ ((Sw * bz tol_int_inv - one) * bz pi_den)%bigZ
+      || BigZ.ltb ((Sw * bz tol_int_inv + one) * bz pi_den)%bigZ (bz 4 * bz pi_lo_num * one * bz tol_int_inv)%bigZ
   end.
 
 (* the file violates the property at (l, m) (m >= 0; neg selects the sine harmonic (l,-m)) *)
@@ -285,3 +284,35 @@ Definition grid_bad_wsum (mode : norm_mode) (n : nat) (sw : Z)
   | None => false
   | Some pts => wsum_bad mode sw (sum_list BOps (map pw pts))
   end.
+
+(* ------------------------------------------------------------------ correspondence with AngularGrid(...)
+   (executed by the harness on every run; not used by the theorems)
+   impl points are handed over at the file's scale s, impl weights at their own scale swi *)
+Definition trip_eqb (a b : bigZ * bigZ * bigZ) : bool :=
+  BigZ.eqb (fst (fst a)) (fst (fst b)) && BigZ.eqb (snd (fst a)) (snd (fst b)) && BigZ.eqb (snd a) (snd b).
+
+Fixpoint list_eqb {A} (e : A -> A -> bool) (a b : list A) : bool :=
+  match a, b with
+  | [], [] => true
+  | x :: r, y :: s => e x y && list_eqb e r s
+  | _, _ => false
+  end.
+
+Definition pts_match (ps impl : list (bigZ * bigZ * bigZ)) : bool := list_eqb trip_eqb ps impl.
+
+(* | wi - nf w | <= 2^-51 |wi|  with  w = W/2^sw (stored), wi = Wi/2^swi (AngularGrid.weights);
+   nf = 1: exact equality required;  nf = 4 pi: pi enclosed by pi_lo/pi_hi *)
+Definition wt_close (mode : norm_mode) (sw swi : Z) (W Wi : bigZ) : bool :=
+  match mode with
+  | AsStored => BigZ.eqb (W * bpow2 swi)%bigZ (Wi * bpow2 sw)%bigZ
+  | Times4Pi =>
+      (* all quantities multiplied by 2^sw 2^swi 2^51 pi_den *)
+      let wi := (Wi * bpow2 sw * bpow2 51 * bz pi_den)%bigZ in
+      let eps := (BigZ.abs Wi * bpow2 sw * bz pi_den)%bigZ in
+      let a := (bz 4 * bz pi_lo_num * W * bpow2 swi * bpow2 51)%bigZ in
+      let b := (bz 4 * bz pi_hi_num * W * bpow2 swi * bpow2 51)%bigZ in
+      BigZ.leb (BigZ.min a b - eps)%bigZ wi && BigZ.leb wi (BigZ.max a b + eps)%bigZ
+  end.
+
+Definition wts_match (mode : norm_mode) (n : nat) (sw swi : Z) (ws impl : list bigZ) : bool :=
+  list_eqb (wt_close mode sw swi) (expand_weights n ws) impl.
